@@ -376,7 +376,9 @@ PROP_SRC = ("class C:\n    'doc'\n    @property\n    def x(self):\n        'real
             "    def f(self):\n        'doc of f'\n    'a stray string after a method'\n"
             "    class N:\n        'doc of N'\n    'a stray string after a nested class'\n"
             "    @property\n    def z(self):\n        'doc of z'\n    z.__doc__ = 'z set by assignment'\n"
-            "def g():\n    'doc of g'\n'a stray string after a function'\n")
+            "    @property\n    def z2(self):\n        'doc of z2'\n    @property\n    def z3(self):\n        return 3\n"
+            "def g():\n    'doc of g'\n'a stray string after a function'\n"
+            "C.z2.__doc__ = 'z2 set at module level'\nC.z3.__doc__ = 'z3 set at module level'\nC.f.__doc__ = 'f set at module level'\n")
 _PROP_ORACLE = ("import sys, json, inspect, importlib; sys.path.insert(0, sys.argv[1]); m = importlib.import_module(sys.argv[2]); out = {}\n"
                 "out['g'] = m.g.__doc__\n"
                 "for k, w in vars(m.C).items():\n"
@@ -406,6 +408,58 @@ def check_property_docstrings(scratch: Path) -> List[Dict[str, Any]]:
     return out
 
 
+REBOUND_SRC = ("DEFAULT_TIMEOUT = 2.5\nNAME = 'n'\nITEMS = [1]\n"
+               "timeout = 30\ntimeout = DEFAULT_TIMEOUT\n"            # a literal, then a name
+               "mode = 0\nmode = NAME\n"
+               "first = DEFAULT_TIMEOUT\nfirst = 7\n"                 # a name, then a literal
+               "twice = 1\ntwice = 'text'\n"                          # two literals of different types
+               "seq = 'x'\nseq = ITEMS\nseq = (1, 2)\n"              # literal, name, literal
+               "chain = 1\nchain = mode\n"                            # a name bound to a name
+               "un, packed = 1, 2\nun = 'again'\n"
+               "lit = 1\nlit, other = 'x', 'y'\n"                     # a literal, then re-bound by unpacking
+               "lit2 = 1\nfor lit2 in ('a',):\n    pass\n"           # ... by a loop
+               "lit3 = 1\nwith open(__file__) as lit3:\n    pass\n"  # ... by a with statement
+               "aug = 1\naug += 1.5\n"                                # augmented: int + float
+               "cond = 1\nif True:\n    cond = 'taken'\n"
+               "class Limits:\n    'doc'\n    size = 10\n    size = DEFAULT_TIMEOUT\n    label = 1\n    label = 'l'\n    ratio = NAME\n    ratio = 0.5\n"
+               "    def __init__(self):\n        'doc'\n        self.depth = 1\n        self.depth = NAME\n")
+_REBOUND_ORACLE = ("import sys, json, importlib; sys.path.insert(0, sys.argv[1]); m = importlib.import_module(sys.argv[2]); out = {}\n"
+                   "for n, v in vars(m).items():\n"
+                   "    if not n.startswith('__') and not isinstance(v, type): out[n] = type(v).__name__\n"
+                   "for n, v in vars(m.Limits).items():\n"
+                   "    if not n.startswith('__'): out['Limits.' + n] = type(v).__name__\n"
+                   "out['Limits.depth'] = type(m.Limits().depth).__name__\n"
+                   "print(json.dumps(out))")
+
+
+def check_rebound_literal_types(scratch: Path) -> List[Dict[str, Any]]:
+    """'A type inferred for a variable assigned a literal is the actual type of that value': for variables bound several times
+       (literal then name, name then literal, literals of different types, augmented, unpacked then re-bound) the type pydoctor
+       states - when it states one - is the type of the value the name has after the import."""
+    import ast as _ast
+    from pydoctor import model
+    base = scratch / "rebound"
+    base.mkdir(parents=True)
+    (base / "reboundmod.py").write_text(REBOUND_SRC)
+    r = subprocess.run([sys.executable, "-I", "-c", _REBOUND_ORACLE, str(base), "reboundmod"], capture_output=True, text=True, timeout=60)
+    if r.returncode != 0:
+        raise RuntimeError("rebound oracle failed: " + r.stderr[-400:])
+    want = json.loads(r.stdout)
+    b = P.build_sources(paths=[base / "reboundmod.py"], record_states=False)
+    out: List[Dict[str, Any]] = []
+    for name, ty in sorted(want.items()):
+        o = b["system"].allobjects.get("reboundmod." + name)
+        if not isinstance(o, model.Attribute) or o.annotation is None:
+            continue                                  # no type stated: nothing to be wrong about
+        try:
+            stated = _ast.unparse(o.annotation).split("[")[0].split(".")[-1]
+        except Exception:
+            continue
+        if stated != ty:
+            out.append({"object": name, "expected": ty, "got": stated, "what": "rebound variables: inferred type"})
+    return out
+
+
 def check(scratch: Path) -> List[Dict[str, Any]]:
     base = scratch / "docassign"
     for rel, text in FILES.items():
@@ -431,4 +485,4 @@ def check(scratch: Path) -> List[Dict[str, Any]]:
             shown = rendered_text(o)
             if doc not in shown:
                 out.append({"object": name, "expected": doc, "got": shown[:200], "what": "docstring as rendered"})
-    return out + check_fields(scratch) + check_overload_neighbours(scratch) + check_rebuild_history(scratch) + check_statics(scratch) + check_blank_docstrings(scratch) + check_assignment_targets(scratch) + check_async_kinds(scratch) + check_overriding_variables(scratch) + check_property_docstrings(scratch)
+    return out + check_fields(scratch) + check_overload_neighbours(scratch) + check_rebuild_history(scratch) + check_statics(scratch) + check_blank_docstrings(scratch) + check_assignment_targets(scratch) + check_async_kinds(scratch) + check_overriding_variables(scratch) + check_property_docstrings(scratch) + check_rebound_literal_types(scratch)
